@@ -234,6 +234,8 @@ class SymCx(BaseCx):
         v = ex.declare(name, 'int', lambda: z3.BitVec(name, w))
         s = SymInt(v, lo, hi, w)
         if ex.pos < len(ex.trail):
+            if not ex.trail[ex.pos].is_assume:
+                raise Unmodelled('replay desynchronised at the declaration of %s' % name)
             ex.pos += 1          # replaying the range assumption
         else:
             ex.assume(z3.And(v >= lo, v <= hi))
@@ -255,6 +257,14 @@ class SymCx(BaseCx):
 
     def assume(self, cond):
         self.ex.assume(cond)
+
+    def assume_fn(self, fn):
+        """assume(fn()) without rebuilding the formula while replaying a prefix."""
+        ex = self.ex
+        if ex.pos < len(ex.trail) and ex.trail[ex.pos].is_assume:
+            ex.pos += 1
+            return
+        self.ex.assume(fn())
 
     def symlist(self, head, n, fill=0):
         """List of symbolic length: head + n copies of fill."""
@@ -318,7 +328,7 @@ class SymCx(BaseCx):
     def valid(self, cond):
         """Is cond true for EVERY input of the current path?  One query, no fork."""
         if isinstance(cond, SymBool):
-            return not self.ex._sat(z3.Not(cond.e))
+            return self.ex.note(lambda: not self.ex._sat(z3.Not(cond.e)))
         return bool(cond)
 
     def eval_repr(self, text, namespace):
@@ -362,6 +372,9 @@ class ConCx(BaseCx):
     def assume(self, cond):
         if not cond:
             raise PathAbort()
+
+    def assume_fn(self, fn):
+        self.assume(fn())
 
     def symlist(self, head, n, fill=0):
         return list(head) + [fill] * n
